@@ -435,6 +435,17 @@ func (env *SpecEnv) call(n *ECall) SVal {
 	case "tag":
 		v := env.eval(n.Args[0])
 		return gInt(v.V.Fs[0].T)
+	case "as":
+		// as(r, "*pkg.T"): view a ghost reference as a typed Go pointer
+		v := env.eval(n.Args[0])
+		sx, ok := n.Args[1].(*EStr)
+		if !ok {
+			unsupp("as(x, \"*pkg.Type\")")
+		}
+		return SVal{V: scalar(v.V.T), T: env.typeByName(sx.V)}
+	case "ival":
+		v := env.eval(n.Args[0])
+		return SVal{V: scalar(v.V.Fs[1].T), G: "Ref"}
 	case "isnil":
 		v := env.eval(n.Args[0])
 		return gBool(env.isNil(v))
